@@ -1,5 +1,6 @@
 import Hm.C03C04
 import Hm.Coding
+import Hm.RustTrim
 
 /-! C18 for token values: the token list of a header value depends only on its ASCII lower-casing -/
 
@@ -66,13 +67,13 @@ theorem lower_lower (t : Bytes) : lower (lower t) = lower t := by
 
 /-- the tokens of one header value depend only on the value's ASCII lower-casing -/
 theorem tokensOfValue_lower (v : Bytes) :
-    (splitTerminator COMMA v).map (fun t => lower (trimBy isAsciiWs t)) =
-    (splitTerminator COMMA (lower v)).map (fun t => lower (trimBy isAsciiWs t)) := by
+    (splitTerminator COMMA v).map (fun t => lower (rustTrim t)) =
+    (splitTerminator COMMA (lower v)).map (fun t => lower (rustTrim t)) := by
   rw [splitTerminator_lower, List.map_map]
   apply List.map_congr_left
   intro t _
   simp only [Function.comp]
-  rw [trim_lower, lower_lower]
+  rw [rustTrim_lower, lower_lower]
 
 /-- C18 (token values): header lists that differ only in the letter case of names *and of the values of
     the looked-up header* list the same tokens — `chunked`, `gzip`, `deflate` are matched in any case -/
